@@ -78,3 +78,49 @@ def logistic(vc):
     logf = lambda i: z(i) - 2 * vc.log1pexp(z(i)) - vc.log(sc(i))
     dlogf = lambda i: (2 / (1 + vc.exp(-z(i))) - 1) / sc(i)
     _common(vc, L, theta, n, m, J, logf, dlogf, F)
+
+
+# ---- bounded layer: many data points, small / large uncertainties (products and sums that leave double range) ----------
+from pyvc.vc import bounded
+
+
+@bounded("C05", "large_data_native", native_runs=18)
+def large_data_native(vc):
+    """value / cost / gradient against the per-point sum of the named log-densities (math.fsum) for data sets of up to
+    several thousand points with uncertainties from 1e-3 to 1e3: every quantity must stay finite and exact"""
+    import math
+    import numpy as np
+    from inference.likelihoods import GaussianLikelihood, CauchyLikelihood, LogisticLikelihood
+    seed = vc.int("seed", lo=0, hi=10 ** 6)
+    rng = np.random.default_rng(seed)
+    which = vc.choice("likelihood", ["gaussian", "cauchy", "logistic"])
+    n = vc.choice("n", [1, 40, 800, 4000])
+    log_scale = vc.choice("log10_uncertainty", [-3, -1.3, 0, 1.3, 3])
+    s = 10.0 ** (log_scale + rng.uniform(-0.2, 0.2, size=n))
+    x = np.linspace(0, 1, n) if n > 1 else np.array([0.5])
+    theta = rng.normal(size=2)
+    model = lambda th: th[0] + th[1] * x
+    jac = lambda th: np.stack([np.ones(n), x], axis=1)
+    y = model(theta) + s * rng.standard_t(3, size=n)
+    cls = {"gaussian": GaussianLikelihood, "cauchy": CauchyLikelihood, "logistic": LogisticLikelihood}[which]
+    with np.errstate(all="ignore"):
+        L = cls(y, s, model, forward_model_jacobian=jac)
+        val, cost, grad = L(theta), L.cost(theta), L.gradient(theta)
+    r = y - model(theta)
+    if which == "gaussian":
+        terms = [-0.5 * (ri / si) ** 2 - math.log(si) - 0.5 * math.log(2 * math.pi) for ri, si in zip(r, s)]
+        dl = r / s ** 2
+    elif which == "cauchy":
+        terms = [-math.log1p((ri / gi) ** 2) - math.log(math.pi * gi) for ri, gi in zip(r, s)]
+        dl = 2 * (r / s) / (s * (1 + (r / s) ** 2))
+    else:
+        sc = s * math.sqrt(3) / math.pi
+        terms = [-(abs(ri / ci)) - 2 * math.log1p(math.exp(-abs(ri / ci))) - math.log(ci) for ri, ci in zip(r, sc)]
+        dl = np.tanh(0.5 * r / sc) / sc
+    want = math.fsum(terms)
+    gwant = np.array([math.fsum(dl), math.fsum(dl * x)])
+    vc.inputs["value"], vc.inputs["expected"] = float(val), float(want)
+    vc.ensures("value_is_finite_sum_of_named_log_densities", math.isfinite(float(val)) and abs(float(val) - want) <= 1e-9 * max(1.0, abs(want)))
+    vc.ensures("cost_is_exact_negative", float(cost) == -float(val))
+    vc.ensures("gradient_is_sum_of_per_point_terms", bool(np.all(np.isfinite(grad)))
+               and bool(np.allclose(grad, gwant, rtol=1e-8, atol=1e-8 * max(1.0, float(np.abs(dl).sum())))))
